@@ -44,8 +44,8 @@ def _set_mode(mode):
         _PRISTINE = options.parse_options(mutators,
                                           ['in.smt2', 'out.smt2', 'cmd'])
     ns = argparse.Namespace(**dict(vars(_PRISTINE)))
-    ns.pretty_print = (mode == 'pretty')
-    ns.wrap_lines = (mode == 'wrap')
+    ns.pretty_print = mode in ('pretty', 'prettywrap')
+    ns.wrap_lines = mode in ('wrap', 'prettywrap')
     setattr(options, '__PARSED_ARGS', ns)
 
 
@@ -192,18 +192,47 @@ def check_ctx(pad, text):
             if not (x is y or x == y or (x == ' ' and y == '\n  ')):
                 same = False
                 break
-    if same:
-        # wrapping only turned separators into line breaks: same tokens as
-        # the default rendering (whose fidelity the 'default' partitions
-        # establish)
-        return None
-    # otherwise compare token-wise (slow path, only for other wrap styles)
-    d = R.read(recs[0].getvalue())
-    w = R.read(recs[1].getvalue())
-    if isinstance(w, str) or isinstance(d, str) or \
-            R.tokens(R.norm_tree(w)) != R.tokens(R.norm_tree(d)):
-        return (f'--wrap-lines output has other tokens than the default '
-                f'output: {recs[1].getvalue()!r}')
+    if not same:
+        # compare token-wise (slow path, only for other wrap styles);
+        # otherwise wrapping only turned separators into line breaks: same
+        # tokens as the default rendering (whose fidelity the 'default'
+        # partitions establish)
+        d = R.read(recs[0].getvalue())
+        w = R.read(recs[1].getvalue())
+        if isinstance(w, str) or isinstance(d, str) or \
+                R.tokens(R.norm_tree(w)) != R.tokens(R.norm_tree(d)):
+            return (f'--wrap-lines output has other tokens than the default '
+                    f'output: {recs[1].getvalue()!r}')
+    # both options together, on the long line and on a flat (all-leaf) one
+    from ddsmt.nodes import Node
+    flat = Node(Node('a' * pad), *[x for x in inner if x.is_leaf()],
+                Node('b' * 30), Node('cc-dd'), Node('"x  y\tz"'),
+                Node('|q\n q|'), Node('g' * 90), Node('h'))
+    for tree in (node, flat):
+        prs = []
+        for mode in ('pretty', 'prettywrap'):
+            _set_mode(mode)
+            r = _Rec()
+            nodeio.write_smtlib(r, [tree])
+            prs.append(r)
+        a, b = prs[0].parts, prs[1].parts
+        same = len(a) == len(b)
+        if same:
+            for x, y in zip(a, b):
+                if not (x is y or x == y):
+                    same = False
+                    break
+        if same:
+            continue        # identical to --pretty-print alone ('pretty_*')
+        _set_mode('default')
+        r = _Rec()
+        nodeio.write_smtlib(r, [tree])
+        d = R.read(r.getvalue())
+        w = R.read(prs[1].getvalue())
+        if isinstance(w, str) or isinstance(d, str) or \
+                R.tokens(R.norm_tree(w)) != R.tokens(R.norm_tree(d)):
+            return (f'--pretty-print --wrap-lines output has other tokens '
+                    f'than the default output: {prs[1].getvalue()!r}')
     return None
 
 
